@@ -483,6 +483,15 @@ func targetedNoConnCloseWaitsForReader(c *core.Ctx, defaultAgent bool) {
 	if r.agent != nil {
 		r.agent.OnClosed = nil // this scenario releases the Read itself
 	}
+	// the scenario is about a reader that sits in Read when Close is called (a reader that has not got that far yet sees
+	// the close flag first and leaves at once, and Close rightly returns)
+	if !waitFor(r.conn.ReaderWaiting) || atomic.LoadInt32(&openRigs) != 1 {
+		c.Inconclusive(1) // no reader in Read yet, or another client of an earlier scenario is still around: the goroutine scan would not be about this client
+		r.conn.ReleaseRead()
+		_ = r.close()
+
+		return
+	}
 	done := make(chan struct{})
 	cr := &closeRec{CallStamp: r.w.Tick()}
 	r.mu.Lock()
@@ -970,7 +979,17 @@ func targetedFallbackHandlerCallsClient(c *core.Ctx, variant int) {
 	}
 	done := make(chan error, 1)
 	go func() { done <- r.close() }()
-	time.Sleep(20 * time.Millisecond) // let Close get as far as it can while the handler is still running
+	// let Close get as far as it can while the handler is still running on the reader goroutine: it cannot return,
+	// "when it returns the reader goroutine has exited"
+	select {
+	case <-done:
+		c.Violate("close-returned-before-reader-exit", "close-returned-while-reader-in-handler", map[string]interface{}{"options": o.String(),
+			"problem": "Close (called from another goroutine) returned while the reader goroutine was still inside the WithHandler handler", "goroutines_alive": fmt.Sprint(goroutineLeaksNow())})
+		close(goOn)
+
+		return
+	case <-time.After(300 * time.Millisecond):
+	}
 	close(goOn)
 	select {
 	case <-done:
@@ -1423,4 +1442,136 @@ func targetedCloseWhileStartWrites(c *core.Ctx, variant int) {
 		return
 	}
 	c.Count("targeted.close_while_start_writes", 1)
+}
+
+// ---- scenarios added against the eighth wave ----
+
+// targetedSimultaneousStartSameID: several goroutines Start the same transaction id at the same instant, again and again.
+// Exactly one Start succeeds, the others report that the transaction exists; the response reaches the winner's handler
+// and nobody else.
+func targetedSimultaneousStartSameID(c *core.Ctx, rounds int) {
+	r, err := newRig(rigOpts{fallback: true, noRetransmit: true, rto: time.Hour})
+	if err != nil {
+		c.Violate("newclient", "newclient", err.Error())
+
+		return
+	}
+	const g = 4
+	for k := 0; k < rounds; k++ {
+		id := seqTID(0)
+		id[3], id[4], id[5] = byte(k), byte(k>>8), byte(k>>16)
+		var start int32
+		var wg sync.WaitGroup
+		txs := make([]*tx, g)
+		for i := range txs {
+			txs[i] = r.newTx("Start", id, 24+4*i)
+		}
+		for i := 0; i < g; i++ {
+			wg.Add(1)
+			go func(i int) {
+				defer wg.Done()
+				for atomic.LoadInt32(&start) == 0 {
+					runtime.Gosched()
+				}
+				_ = r.start(txs[i])
+			}(i)
+		}
+		atomic.StoreInt32(&start, 1)
+		wg.Wait()
+		won := 0
+		for _, t := range txs {
+			if t.RetErr == nil {
+				won++
+			} else if !errors.Is(t.RetErr, stun.ErrTransactionExists) {
+				c.Violate("start-failed", "start-failed:simultaneous-same-id", map[string]interface{}{"round": k, "err": t.RetErr.Error()})
+				_ = r.close()
+
+				return
+			}
+		}
+		resp := response(id, fmt.Sprintf("same-id-%d", k))
+		r.deliver(id, resp, true)
+		invoked := 0
+		for _, t := range txs {
+			inv := t.invocations()
+			if t.RetErr == nil && len(inv) == 1 && inv[0].Class == "response" && bytes.Equal(inv[0].MsgRaw, resp) {
+				invoked++
+			} else if len(inv) != 0 {
+				invoked += 100
+			}
+		}
+		c.Eval(1)
+		if won != 1 || invoked != 1 {
+			c.Violate("not-delivered", "simultaneous-start-same-id", map[string]interface{}{"round": k,
+				"problem": fmt.Sprintf("%d goroutines started one id at the same instant: %d Start calls returned nil (exactly one may); after the response, handlers that got it: %d (100s = invocations on a refused Start)", g, won, invoked),
+				"ledger_tail": tailOf(r.describe(), 14)})
+			_ = r.close()
+
+			return
+		}
+		if k%64 == 63 {
+			r.mu.Lock()
+			r.txs, r.delivered, r.fallback = r.txs[:0], map[[12]byte][][]byte{}, r.fallback[:0]
+			r.mu.Unlock()
+		}
+	}
+	_ = r.close()
+	c.Count("targeted.simultaneous_start_same_id_rounds", int64(rounds))
+}
+
+// targetedResponsesDuringRetransmittingTick: eight requests fall due in one tick; while the first one is being
+// retransmitted (inside its Write) the responses to the other seven arrive. Those seven are still in flight for the
+// client: each response reaches its handler.
+func targetedResponsesDuringRetransmittingTick(c *core.Ctx, variant int) {
+	c.Eval(1)
+	o := rigOpts{rto: time.Second, fallback: variant&1 == 1}
+	r, err := newRig(o)
+	if err != nil {
+		c.Violate("newclient", "newclient", err.Error())
+
+		return
+	}
+	const n = 8
+	txs := make([]*tx, n)
+	for i := range txs {
+		id := seqTID(int8(i % 3))
+		id[6] = byte(i + 1)
+		txs[i] = r.newTx("Start", id, 24+4*i)
+		_ = r.start(txs[i])
+	}
+	var once int32
+	resps := map[[12]byte][]byte{}
+	r.conn.OnWrite = func(nw int) {
+		if nw == n+1 && atomic.CompareAndSwapInt32(&once, 0, 1) { // the first retransmission of the tick
+			first := r.conn.Writes()[nw-1].Bytes
+			for _, t := range txs {
+				if bytes.Equal(first[8:20], t.ID[:]) {
+					continue // the one being retransmitted right now
+				}
+				resp := response(t.ID, fmt.Sprintf("during-tick-%x", t.ID[6]))
+				resps[t.ID] = resp
+				r.deliver(t.ID, resp, true)
+			}
+		}
+	}
+	r.tickAt(int64(time.Second) + 1)
+	r.conn.OnWrite = nil
+	got := 0
+	for _, t := range txs {
+		if resp, ok := resps[t.ID]; ok {
+			inv := t.invocations()
+			if len(inv) == 1 && inv[0].Class == "response" && bytes.Equal(inv[0].MsgRaw, resp) {
+				got++
+			}
+		}
+	}
+	_ = r.close()
+	if atomic.LoadInt32(&once) == 1 && got != len(resps) {
+		c.Violate("not-delivered", "not-delivered:responses-during-retransmitting-tick", map[string]interface{}{"options": o.String(),
+			"problem": fmt.Sprintf("%d requests fell due in one tick; while the first was being retransmitted the responses to the other %d arrived; %d of them reached their handlers", n, len(resps), got),
+			"ledger_tail": tailOf(r.describe(), 30)})
+
+		return
+	}
+	c.Count("targeted.responses_during_retransmitting_tick", 1)
 }
